@@ -879,7 +879,7 @@ func c16D(c *h.Ctx) {
 			c.Violate("C16/batch-update-not-atomic", fmt.Sprintf("round %d: replacing %s by %s on a full table failed with %v although no other call could change the membership", n, x, y, uerr), w)
 			return
 		}
-		pi := t.FindPlayerIdx(y)
+		pi := h.PlayerIdx(t, y)
 		if pi < 0 || len(t.State.PlayerStates) != seats {
 			c.Violate("C16/batch-update-lost-player", fmt.Sprintf("round %d: after the update %s is seated=%v and the table has %d players on %d seats", n, y, pi >= 0, len(t.State.PlayerStates), seats), w)
 			return
